@@ -2,7 +2,9 @@
 #include <dirent.h>
 #include <unistd.h>
 
+#ifndef GRSIM_PLAIN
 extern "C" int __sanitizer_install_malloc_and_free_hooks(void (*malloc_hook)(const volatile void *, size_t), void (*free_hook)(const volatile void *));
+#endif
 
 namespace sim {
 
@@ -80,7 +82,11 @@ NOTSAN static void fhook(const volatile void *p) {
 }
 void alloc_install() {
     g_inhook = true; g_allocs = new std::unordered_map<const void *, std::pair<u64, size_t>>(); g_allocs->reserve(1 << 16); g_inhook = false;
+#ifndef GRSIM_PLAIN
     __sanitizer_install_malloc_and_free_hooks(mhook, fhook);
+#else
+    (void)mhook; (void)fhook;   // plain flavour (valgrind second opinions): no allocation ledger
+#endif
 }
 size_t alloc_live() { return g_allocs ? g_allocs->size() : 0; }
 void alloc_reset() { g_inhook = true; if (g_allocs) g_allocs->clear(); g_inhook = false; }
